@@ -1458,7 +1458,20 @@ def run(ctx):
                        "coroutines, deep stacks, error objects) run one per process on the asan build under forced collection schedules "
                        "(every:1 = a collection before every allocation of the script's run, every:2/3, seeded; heap audit on a subset), "
                        "started at the first allocation of the run found through marker allocations in the allocation log; output must equal "
-                       "the machine's trace, ASan silent; a failing schedule is bisected to a single at:k.")
+                       "the machine's trace, ASan silent; a failing schedule is bisected to a single at:k. "
+                       "Round 3: every construct is printed in ALL its exported spellings across the run (call/cc | call-with-current-continuation "
+                       "| (chibi) | (scheme r5rs); dynamic-wind x3; with-exception-handler and raise x3 incl. (srfi 18); parameterize / make-parameter "
+                       "of (scheme base) | (srfi 39); values / call-with-values x3; seven ways to signal an error; two payload readers using the "
+                       "error-object? family), chosen by a stable hash of (script, construct, site); a third of the scripts run in multiple-values "
+                       "mode (every call/cc receiver is a call-with-values consumer summing its values, throws pass 1-3 values, via apply or "
+                       "call-with-values too). The exported names / alias definitions / selecting .sld texts are pinned (gen/c06_exports.py) and "
+                       "every exported procedure spelling must be eq? to the mirrored binding. Every event also records the wind point register "
+                       "(%dk) read right after it (depth relative to the script start + identity in order of first sight), compared with the "
+                       "machine's dk component (stepped in the OCaml driver). Stream sibling-jumps: >= 2 jumps between sibling extents of equal "
+                       "depth (cousins, nephews, parameterize extents), the second taken from inside the re-entered extent (to the first, to a "
+                       "third sibling, to the root, to a continuation captured after the re-entry), ping-pong up to 6 times: 363 structured + "
+                       "500 (thorough 12000) sampled. RESUMECC on a stack that must grow (raw %call/cc continuation of a deep recursion "
+                       "invoked from another green thread); growth branch of sexp_restore_stack vs the model; values/call-with-values on 0-4 values.")
     from gen import c06_travel, c06_shapes, c06_exports
     c06_travel.regen(ctx)
     c06_shapes.check(ctx)          # the hand-mirrored Scheme definitions still have the mirrored text
@@ -1514,7 +1527,11 @@ def run(ctx):
     ctx.assume("errors detected by primitives ((car 999)) are signalled as non-continuable exceptions to the current handler (chibi's behaviour; R7RS only says 'it is an error')")
     ctx.trust("the forced-collection / allocation-log / poisoning hooks of /repo gc.c (SEXP_USE_VERIF_HOOKS) and ASan as the detector of "
               "touching a swept object; the hand-computed results of the 10 non-DSL programs of the forced-gc stream")
-    ctx.trust("the Python printer of DSL scripts to Scheme text (props/C06.py: scheme()) and the OCaml parser of the same token list")
+    ctx.trust("the Python printer of DSL scripts to Scheme text (props/C06.py: scheme(), incl. the table of spellings and the "
+              "multiple-values encodings) and the OCaml parser of the same token list; the dk annotation is computed by the OCaml driver "
+              "(ocaml/C06_driver.ml rundk) from the extracted step function")
+    ctx.assume("the raw primitive %call/cc (exported by (chibi), no winding) is outside the R7RS property; it is used only to reach the "
+               "growth branch of RESUMECC (a continuation resumed on another green thread's stack)")
 
 
 def replay(ctx, data):
